@@ -176,6 +176,8 @@ func runC04(c *Ctx) {
 		pit = append(pit, docItem{"targeted", []byte(t)})
 	}
 	parserModelCases(c, pit, n)
+	gfmModelCases(c, pit, n/4)
+	otherModelCases(c, pit, n/12)
 	safeModeSweep(c, tg, func(cf Cfg, it docItem, out []byte, report func(kind, detail string)) {
 		toks, _ := scanHTML(out)
 		for _, t := range toks {
